@@ -103,10 +103,10 @@ func VC01Field2() {
 	}
 }
 
-//verif: prop=C01,C02,C10 tier=thorough bounds="1 call-site field, marshalers nested to depth 1"
-func VC01Field1Deep() { vFieldsCase(nil, [][]int{vFullMenu}, true, 1) }
+//verif: prop=C01,C02,C10 tier=thorough bounds="1 call-site field from the full menu with plain keys, marshalers nested to depth 1"
+func VC01Field1Deep() { vFieldsCase(nil, [][]int{vFullMenu}, false, 1) }
 
-//verif: prop=C01,C02,C10 tier=thorough bounds="2 context steps (lite) + 1 call-site field (lite) + 1 (full)"
-func VC01Ctx2Field2() { vFieldsCase([][]int{vLiteMenu, vLiteMenu}, [][]int{vLiteMenu, vFullMenu}, false, 0) }
+//verif: prop=C01,C02,C10 tier=thorough bounds="2 context steps (lite menu each) + 1 call-site field (full menu)"
+func VC01Ctx2Field1() { vFieldsCase([][]int{vLiteMenu, vLiteMenu}, [][]int{vFullMenu}, false, 0) }
 
 var _ = time.Second
